@@ -519,8 +519,15 @@ func (self *MerkleVerifier) VerifyConsistency(old_tree_size,
 	if old_size > new_size {
 		return errors.New(fmt.Sprintf("Older tree has bigger size %d vs %d", old_size, new_size))
 	}
-	if old_root == new_root {
-		return nil
+	if old_size == 0 && old_root != self.hasher.hash_empty() {
+		// the empty tree is a prefix of every tree, but its root is fixed
+		return errors.New("Wrong old root: the empty tree has root sha256(\"\")")
+	}
+	if old_size == new_size {
+		if old_root == new_root {
+			return nil
+		}
+		return errors.New("Inconsistency: different root hashes for the same tree size")
 	}
 	if old_size == 0 {
 		return nil
